@@ -581,7 +581,7 @@ func Run(r *mc.Run) {
 	r.Assume = []string{
 		"oracle = the invariants of the statement only (no panic; <= floor(len/60)+1 members, then io.EOF or an error; every member from a header with the two magic bytes, Size >= 0, Data delivers exactly Size bytes; same outcome on a second run); which inputs are accepted or rejected is not judged",
 		"header offset of a returned member = base offset of its SectionReader (Data.Outer) - 60",
-		"non-termination of deb.Load is detected by a " + HangGuard.String() + " guard (normal executions take < 1 ms); after a size value has hung once, further deb.Load executions carrying that size value are not issued (exhaustive:false is reported for those scenarios)",
+		"non-termination of deb.Load / LoadFile / Tarfile is detected by a " + HangGuard.String() + " watchdog for inputs whose members are stored or gzip (normal executions take < 1 ms); inputs that name an xz / lzma / zstd / bzip2 member get " + ThirdPartyGuard.String() + " and a timeout there is no verdict (class slow-third-party-decoder); after a size value has hung once, further deb.Load executions carrying that size value are not issued (exhaustive:false is reported for those scenarios)",
 		"coverage-guided fuzzing named in the quantifier is replaced by exhaustive structured enumeration; compressed members: stored and gzip only",
 	}
 	x := &runner{r: r, hungSize: map[string]bool{}}
@@ -977,6 +977,7 @@ func Run(r *mc.Run) {
 			return true
 		})
 	r.Extra["load_executions_that_did_not_return"] = atomic.LoadInt64(&hangs)
+	r.Extra["third_party_executions_abandoned_no_verdict"] = atomic.LoadInt64(&slowThirdParty)
 }
 
 // ---- large inputs ----
